@@ -51,7 +51,8 @@ def build2(name="SH2"):
                 Comp("tail2", Type("SEQUENCE", comps=[Comp("a2", Type("INTEGER")), Comp("s2", Type("IA5String"))], tag=("C", 11, "IMPLICIT")), optional=True),
                 Comp("end", Type("BOOLEAN"))]))
     m.add("T3", Type("SET", comps=[Comp("id3", Type("INTEGER")), Comp("body3", body("3")), Comp("flag3", Type("BOOLEAN")),
-                                   Comp("opt3", Type("SEQUENCE OF", elem=Type("INTEGER"), tag=("C", 7, "IMPLICIT")), optional=True)]))
+                                   Comp("opt3", Type("SEQUENCE OF", elem=Type("INTEGER"), tag=("C", 7, "IMPLICIT")), optional=True),
+                                   Comp("lvl3", Type("INTEGER", tag=("C", 9, "IMPLICIT")), has_default=True, default=5)]))
     m.add("T4", Type("SEQUENCE", comps=[Comp("c1", Type("CHOICE", comps=[Comp("a4", Type("SEQUENCE OF", elem=Type("UTF8String"), tag=("C", 0, "IMPLICIT"))),
                                                                         Comp("b4", Type("IA5String", tag=("C", 1, "IMPLICIT")))]), optional=True),
                                         Comp("c2", Type("CHOICE", comps=[Comp("x4", pair("5")), Comp("y4", Type("BIT STRING"))]))],
@@ -75,11 +76,60 @@ def values2(mod, name, rng, quick):
                {"o9": 5, "tail": b"\xaa\xbb\xcc", "tail2": {"a2": -1, "s2": "q"}, "end": False}, {"o0": True, "o8": False, "tail2": {"a2": 0, "s2": ""}, "end": True},
                dict([("o%d" % i, (i if i % 2 else bool(i & 2))) for i in range(10)] + [("tail", b"zz"), ("tail2", {"a2": 7, "s2": "all"}), ("end", False)])]
     elif name == "T3":
-        out = [{"id3": 7, "body3": b, "flag3": False} for b in bodies("3")] + [{"id3": 1, "body3": ("pair3", {"a3": 0, "b3": 0}), "flag3": True, "opt3": [1, 2, 300]}]
+        out = [{"id3": 7, "body3": b, "flag3": False} for b in bodies("3")] + [{"id3": 1, "body3": ("pair3", {"a3": 0, "b3": 0}), "flag3": True, "opt3": [1, 2, 300]},
+                                                                                     {"id3": 2, "body3": ("raw3", b"x"), "flag3": True, "lvl3": 6}]
     elif name == "T4":
         out = [{"c2": ("x4", {"a5": 5, "b5": 6})}, {"c2": ("y4", (b"\xa5\x80", 9))}, {"c1": ("a4", ["é", "zz"]), "c2": ("x4", {"a5": -1, "b5": 1})},
                {"c1": ("b4", "ia5"), "c2": ("y4", (b"", 0))}, {"c2": ("x4", {"a5": 1, "b5": 2}), "e1": ("p4", b"\x00\x01\x02")},
                {"c1": ("a4", []), "c2": ("y4", (b"\x80", 1)), "e1": ("q4", [True, False, True])}]
+    return out
+
+
+def build3(name="SZ"):
+    """sizes: plain string types whose encodings are driven across the power-of-two totals, fixed-size BIT STRINGs"""
+    m = Module(name, "AUTOMATIC")
+    m.add("P", Type("OCTET STRING"))
+    m.add("Q", Type("IA5String"))
+    m.add("W", Type("SEQUENCE", comps=[Comp("s", Type("OCTET STRING")), Comp("f", Type("BOOLEAN"))]))
+    for n in (17, 64, 200):
+        m.add("B%d" % n, Type("BIT STRING", size_c=Constraint([(("val", n), False, None)])))
+    m.add("O12", Type("OCTET STRING", size_c=Constraint([(("val", 12), False, None)])))
+    for t in m.types.values():
+        _gen._set_module(t, m)
+    m.finalize()
+    return m
+
+
+def values3(mod, name, quick):
+    """-> [(value, valid)]"""
+    out = []
+    totals = (32, 64, 128, 256) if quick else (16, 32, 64, 128, 256, 512, 1024, 2048)
+    lens = sorted(set(t + d for t in totals for d in range(-7, 2) if t + d >= 0))
+    if name == "P":
+        out = [(bytes((i * 13 + n) & 0xff for i in range(n)), True) for n in lens]
+    elif name == "Q":
+        out = [("".join(chr(0x41 + (i + n) % 26) for i in range(n)), True) for n in (lens if not quick else lens[::3])]
+    elif name == "W":
+        out = [({"s": bytes(n), "f": True}, True) for n in (lens if not quick else lens[::2])]
+    elif name.startswith("B"):
+        n = int(name[1:])
+        nb = (n + 7) // 8
+        full = bytearray(b"\xa5" * nb)
+        if n % 8:
+            full[-1] &= (0xff << (8 - n % 8)) & 0xff
+        full[(n - 1) // 8] |= 0x80 >> ((n - 1) % 8)
+        out.append(((bytes(full), n), True))
+        for bits in (0, 1, 8, 9, 24, 40, n - 9, n - 1, n + 1, n + 8, n + 17):
+            if 0 <= bits != n:
+                k = (bits + 7) // 8
+                data = bytearray(b"\x5a" * k)
+                if bits % 8:
+                    data[-1] &= (0xff << (8 - bits % 8)) & 0xff
+                if bits:
+                    data[(bits - 1) // 8] |= 0x80 >> ((bits - 1) % 8)
+                out.append(((bytes(data), bits), False))
+    elif name == "O12":
+        out = [(bytes(range(12)), True)] + [(bytes(range(k)), False) for k in (0, 1, 11, 13, 28)]
     return out
 
 
